@@ -231,7 +231,10 @@ def vol_index_entries(F, S):
     if good:
         lp = loops[0]
         d0 = ph.n(lp["init"])["decls"][0]
-        good = ph.term(d0["init"]) == ("const", 1) and ph.term(lp["cond"])[0] == "op" and ph.term(lp["cond"])[1] == "<" and "fileCount" in repr(ph.term(lp["cond"]))
+        vi = ("var", ph.params[0]["n"], ph.params[0]["d"])
+        ct = ph.term(lp["cond"])
+        good = ph.term(d0["init"]) == ("const", 1) and ct[0] == "op" and ct[1] == "<" and \
+            ct[3] == F.method_value("OP2Utility::Archive::VolFile::CreateVolumeInfo::fileCount", vi)
     if good:
         out.append(ok("R-INIT", inst, ph.loc(stores[0]["id"]), ph.qn, req, "store for [0] + loop i = 1 .. fileCount()"))
     else:
@@ -510,8 +513,15 @@ def one_push_per_iteration(F, container, count):
     direct = any(nd["id"] in fn.subtree(k) and fn.n(k)["k"] not in ("IfStmt", "ForStmt", "WhileStmt", "SwitchStmt", "DoStmt") for k in fn.kids(body["id"]))
     d0 = fn.n(lp["init"])["decls"][0]
     cond = fn.term(lp["cond"])
-    cnt_name = count[1].split("::")[-1] if count[0] == "call" else None
-    bound_ok = cond[0] == "op" and cond[1] == "<" and cond[2] == ("var", d0["n"], d0["d"]) and cond[3][0] == "call" and cond[3][1].split("::")[-1] == cnt_name
+
+    def anon(t):
+        # the same expression over the scratch structure, whichever parameter it is reached through
+        if isinstance(t, tuple) and t and t[0] == "var":
+            return ("obj",)
+        if isinstance(t, tuple):
+            return tuple(anon(x) if isinstance(x, tuple) else x for x in t)
+        return t
+    bound_ok = cond[0] == "op" and cond[1] == "<" and cond[2] == ("var", d0["n"], d0["d"]) and anon(cond[3]) == anon(count)
     return bool(direct and fn.term(d0["init"]) == ("const", 0) and bound_ok)
 
 
